@@ -29,7 +29,11 @@ CONSTANTS
     Parent,     \* Item -> Item \cup {NoItem}: the vertex a vertex item builds on ("none": genesis, known everywhere)
     Origin,     \* Item -> Node: where the item is accepted first
     MaxDup,     \* how many duplicate deliveries the network may make
-    MaxForge    \* how many forged messages the adversary may send
+    MaxForge,   \* how many forged messages the adversary may send
+    AllowPoison \* whether the adversary may also forge ITEMS: announce a known item's hash with corrupted content.
+                \* The recent-hash memory is written before the content is verified, so the honest copy that arrives
+                \* later is dropped as a repeat (finding F14).  C12 quantifies over forged LISTS; the action is kept
+                \* separate so that both readings can be checked.
 
 VARIABLES
     peers,      \* Node -> SUBSET Node: peer tables (chosen in Init)
@@ -187,7 +191,18 @@ Forge(b, t, i, gs) ==
     /\ nforge' = nforge + 1
     /\ UNCHANGED <<peers, flash, adm, admc, parked, seen, sent, orig, ndup>>
 
+\* a message whose item hash is that of i but whose content does not verify: the handler marks the hash as seen,
+\* the ledger refuses the content, nothing is admitted or forwarded
+Poison(b, t, i) ==
+    /\ AllowPoison
+    /\ b \in Bad /\ t \in peers[b] /\ t \in Honest /\ i \in KnownItems(b) /\ nforge < MaxForge
+    /\ i \notin flash[t]
+    /\ flash' = [flash EXCEPT ![t] = @ \cup {i}]
+    /\ nforge' = nforge + 1
+    /\ UNCHANGED <<peers, adm, admc, parked, msgs, seen, sent, orig, ndup>>
+
 Next ==
+    \/ \E b \in Bad, t \in Node, i \in Item : Poison(b, t, i)
     \/ \E i \in Item : Originate(i)
     \/ \E m \in msgs : Receive(m) \/ Absorb(m)
     \/ \E m \in seen : Duplicate(m)
@@ -229,4 +244,9 @@ C11_AllReachedModuloF13 == C11_AllReached \/ C11_SignatureF13
 \* C12: only valid entries count (by construction of Verified; conformance binds it to the code), and an
 \* adversarial relay cannot keep an item from an honest node that has an honest path to the origin
 C12_NoSuppression == C11_AllReached
+\* signature of finding F14: an item is missing at a node only if that node saw its hash without admitting it
+C12_SignatureF14 ==
+    \A i \in Item, n \in Honest : (Quiet /\ Origin[i] \in Honest /\ n \in HonestReach(Origin[i]) /\ i \notin adm[n]) =>
+        (i \in flash[n] /\ i \notin parked[n])
+C12_NoSuppressionModuloF14 == C12_NoSuppression \/ C12_SignatureF14
 =============================================================================
